@@ -189,7 +189,7 @@ func (rw *rewriter) call(c *ast.CallExpr) {
 	if rw.rules["lock"] {
 		if se, ok := c.Fun.(*ast.SelectorExpr); ok && len(c.Args) == 0 {
 			switch se.Sel.Name {
-			case "Lock", "Unlock", "RLock", "RUnlock":
+			case "Lock", "Unlock", "RLock", "RUnlock", "TryLock", "TryRLock":
 				if id, ok := se.X.(*ast.Ident); ok && id.Obj == nil && importedAs(rw.file, id.Name) {
 					break
 				}
